@@ -50,9 +50,9 @@ class Lock:
 def regenerate_gen():
     """translators: source -> coq/gen/*.v (fail closed)"""
     msgs = []
-    for tool in ("extract_orderings.py", "extract_types.py", "extract_arith.py"):
-        path = os.path.join(ROOT, "tools", tool)
-        if os.path.exists(path):
+    for path in sorted(glob.glob(os.path.join(ROOT, "tools", "extract_*.py"))):
+        tool = os.path.basename(path)
+        if True:
             rc, out = sh([sys.executable, path, REPO, os.path.join(COQ, "gen")], timeout=120)
             if rc != 0:
                 msgs.append("%s failed: %s" % (tool, out.strip()[-2000:]))
@@ -1004,3 +1004,14 @@ def special_c09(prop, tier, seed, bins, out, problems):
 
 
 SPECIAL["C09"] = special_c09
+
+
+def special_c14(prop, tier, seed, bins, out, problems):
+    import c14
+    c14.special(prop, tier, seed, bins, out, problems)
+    ex = out.get("extra", {})
+    pr = ex.get("probes", {})
+    extra_coverage.setdefault(prop, {})["probes"] = dict(pairs=len(pr), names=sorted(pr.keys())[:80])
+
+
+SPECIAL["C14"] = special_c14
